@@ -90,6 +90,11 @@ class FakeS3(object):
 
     def get(self, owner, bucket, key):
         self.reads.append((owner, 'get', bucket, key))
+        fr = getattr(self, 'fail_reads', None)
+        if fr:
+            fr['seen'] = fr.get('seen', 0) + 1
+            if fr['seen'] == fr['at']:
+                raise fr.get('error', TransientS3Error)('injected: %s while reading %s' % (fr.get('error', TransientS3Error).__name__, key))
         if key not in self._b(bucket):
             raise NoSuchKey(key)
         return self._b(bucket)[key][0]
@@ -172,6 +177,14 @@ class _Summary(object):
 
     def get(self):
         return {'Body': io.BytesIO(self._fake.get(self._owner, self._bucket, self.key))}
+
+
+class TransientS3Error(Exception):
+    """Throttling / read timeout / connection reset while an object is fetched."""
+
+
+class ReadTimeoutError(Exception):
+    pass
 
 
 def make_fake_datetime(fake):
